@@ -18,6 +18,7 @@ mod upgrade_clap;
 mod validate;
 mod selfenc;
 mod clientread;
+mod quotefetch;
 mod replication;
 
 use std::path::PathBuf;
@@ -44,6 +45,7 @@ fn main() {
         ("Validate", validate::generate),
         ("SelfEnc", selfenc::generate),
         ("ClientRead", clientread::generate),
+        ("QuoteFetch", quotefetch::generate),
         ("Replication", replication::generate),
     ];
     let mut failed = false;
